@@ -112,7 +112,11 @@ class ScriptClock:
         self.readings = list(readings)
         self.i = 0
 
+    between = None      # set while NO connection is being served: what the wall clock shows then (not consumed)
+
     def time(self):
+        if self.between is not None:
+            return self.between() + 0.5
         if self.i >= len(self.readings):
             raise ClockOut()
         v = self.readings[self.i]
@@ -255,6 +259,14 @@ class Rig:
         obs_list = []
         pending = list(conns)
 
+        # the listener waits inside accept(): a connection arrives `idle` seconds (default 2, below the accept timeout)
+        # after the loop went to wait for it.  Whatever reads the clock between two connections -- at the top of the
+        # loop, before accept() -- sees the time the wait BEGAN, not the time the connection was accepted.
+        def wall_between():
+            nxt = next((c for c in pending if c is not None), None)
+            return (nxt['accepted'] - nxt.get('idle', 2)) if nxt is not None else 0
+        clock.between = wall_between
+
         class Listener:
             def __init__(self):
                 self.closed = 0
@@ -281,6 +293,7 @@ class Rig:
                 cs = ScriptSock(script)
                 clock.readings = [c['accepted']] + list(c['clock'])
                 clock.i = 0
+                clock.between = None
                 self.current = (c, cs)
                 return cs, (c['addr'], 40000)
 
@@ -302,6 +315,7 @@ class Rig:
 
         def wrapper(client_s, client_addr, client_accepted):
             before = (rig.table(), rig.qlen())
+            items_before = rig.queue_items()
             out = 'accepted'
             try:
                 orig(client_s, client_addr, client_accepted)
@@ -309,9 +323,11 @@ class Rig:
                 out = exc_enum(e)
                 raise
             finally:
+                clock.between = wall_between
                 obs_list.append({'out': out, 'reads': client_s.reads, 'closed': client_s.closed,
                                  'settimeouts': client_s.settimeouts, 'ended_silent': client_s.ended_silent,
-                                 'clock_used': clock.i - 1, 'before': before, 'after': (rig.table(), rig.qlen())})
+                                 'clock_used': clock.i - 1, 'before': before, 'after': (rig.table(), rig.qlen()),
+                                 'items_before': items_before, 'items_after': rig.queue_items()})
 
         self.t._tcp_incoming_handle_client = wrapper
         old_time, old_sock = tcp_mod.time, tcp_mod.socket
@@ -476,7 +492,7 @@ def sequence_case(parts):
 
 def sequence_cases(ctx, msgs, bigs, n):
     rng = ctx.rng
-    for _ in range(n):
+    for i in range(n):
         recv_bytes = rng.choice((64, 64, 2048))
         parts = []
         for _ in range(rng.randrange(2, 6)):
@@ -494,7 +510,11 @@ def sequence_cases(ctx, msgs, bigs, n):
         # every sequence ends with a complete message: it must be delivered whatever came before
         msg, m = rng.choice(msgs)
         parts.append(deliver_case('random', recv_bytes, msg, m, sorted(set(rng.randrange(1, len(m)) for _ in range(rng.randrange(0, 3)))), rng))
-        yield sequence_case(parts)
+        c = sequence_case(parts)
+        # every other sequence is served by the REAL accept loop (the listener waits `idle` seconds inside accept() before
+        # each connection; see Rig.serve), the others by calling the handler directly
+        c['via_accept_loop'] = (i % 2 == 0)
+        yield c
 
 
 def cases(ctx: Ctx):
@@ -622,7 +642,10 @@ def oracle_conn(case, conn, obs, rig, items_before):
     if obs['out'] == 'clockout':
         bad('no-give-up', 'the handler kept reading past the first clock reading at accept+timeout')
         return v
-    new_items = rig.queue_items()[len(items_before):]
+    if 'items_after' in obs:        # served by the accept loop: the queue as it was right before / after THIS connection
+        new_items = obs['items_after'][len(obs['items_before']):]
+    else:
+        new_items = rig.queue_items()[len(items_before):]
     if ex.get('kind') == 'deliver':
         sig = 'marker-inside-ciphertext-at-read-boundary' if case['kind'].startswith('f9') else 'dropped-complete-message'
         if obs['out'] != 'accepted':
